@@ -166,7 +166,7 @@ template <class E0> static void checkBase(Ctx& cx, Base<E0>& B, const View& w, c
         for (int k = 0; k < T::NR; ++k) if (!sameNum(got[k], B.bm.at(r, c, k))) { if (okVals) bad = "base(" + std::to_string(r) + "," + std::to_string(c) + ")[" + std::to_string(k) + "]=" + verif::fmtd((double)got[k]) + " expected " + verif::fmtd((double)B.bm.at(r, c, k)); okVals = false; }
         if (!touched[(size_t)c * B.m + r] && memcmp(&e, &snap[((size_t)c * B.m + r) * sizeof(E0)], sizeof(E0)) != 0) { if (okUntouched) bad += " untouched base(" + std::to_string(r) + "," + std::to_string(c) + ") changed"; okUntouched = false; }
     }
-    cx.run->outcome(verif::fnv1a(B.bm.v.data(), B.bm.v.size() * sizeof(LD)));
+    { uint64_t oh = verif::fnv1a(B.bm.v.data(), B.bm.v.size() * sizeof(LD)); if ((oh & 63) == 0) cx.run->outcome(oh); }   // a deterministic 1/64 sample of the distinct outcomes (vacuity guard only)
     EXPECT(okVals, std::string("base-values/") + opname, "after %s: %s", opname, bad.c_str());
     EXPECT(okUntouched, std::string("write-outside-view/") + opname, "after %s: %s", opname, bad.c_str());
     EXPECT(B.guardsIntact(), std::string("write-outside-matrix/") + opname, "after %s the padding around the external data was modified", opname);
@@ -444,7 +444,7 @@ struct SmallCtx { verif::Run* run; };
 template <class X> static void expectDense(verif::Run& run, const std::string& key, const X& got, const Dense& want, const std::function<std::string()>& where) {
     Dense g = toDense(got);
     bool ok = dMaxDiff(g, want) == 0;
-    run.outcome(verif::fnv1a(want.v.data(), want.v.size() * sizeof(CL), verif::hashStr(key)));
+    { uint64_t oh = verif::fnv1a(want.v.data(), want.v.size() * sizeof(CL), verif::hashStr(key)); if ((oh & 63) == 0) run.outcome(oh); }
     run.expect(ok, key, [&] { return key + ": got " + dStr(g) + " expected " + dStr(want) + " for " + where(); }, [&] { return run.replayHeader(); });
 }
 
